@@ -26,7 +26,7 @@ CBP = z3.Function('ENTRY_CAN_BE_PREFIX', INT, B)
 ISFUT = z3.Function('ENTRY_FUTURE_IS_ARG', INT, B)            # entry.future is future (argument)
 NOTASK = z3.Function('ENTRY_TASK_NONE', INT, B)
 # outcome codes stored in the world
-PENDING, NACKED, CANCELLED = 0, 1, 2
+PENDING, NACKED, CANCELLED, RESULT = 0, 1, 2, 3
 
 
 class World:
@@ -78,6 +78,14 @@ class FutRef:
                 w.outcome = z3.Store(w.outcome, a, z3.IntVal(NACKED))
                 w.reason = z3.Store(w.reason, a, zint(exc.args[0]))
             return _M(set_exception)
+        if name == 'set_result':
+            def set_result(it_, value):
+                if it_.run.branch(z3.Select(w.done, a), 'future.already_done'):
+                    raise PyExc(asyncio.InvalidStateError, ('invalid state',), getattr(node, 'lineno', None), it_.where())
+                w.done = z3.Store(w.done, a, z3.BoolVal(True))
+                w.outcome = z3.Store(w.outcome, a, z3.IntVal(RESULT))
+                it_.run.ghost.setdefault('pit.results', []).append(value)
+            return _M(set_result)
         if name == 'cancel':
             def cancel(it_):
                 # Future.cancel(): no effect (False) when already done
@@ -1121,3 +1129,127 @@ class on_data(Contract):
                 'is_prefix_flag': z3.ForAll([a], z3.Implies(rng, z3.Select(dw.isparg, a) == z3.Not(EXACT(a)))),
                 'exactly_the_emptied_nodes_removed_once': And(z3.ForAll([a], z3.Select(dw.deleted, a) == z3.And(rng, SATALL(a))),
                                                               not dw.double_delete)}
+
+
+# ============================================================================= legacy front-end: ndn/name_tree.py
+from ndn import name_tree as nt                                       # noqa: E402
+
+
+def mk_node_v1(cx):
+    node = mk_node(cx)
+    return SymObj(nt.InterestTreeNode, dict(pending_list=node.d['pending_list']))
+
+
+@contract
+class v1_nack_interest(nack_interest):
+    fn = nt.InterestTreeNode.nack_interest
+    doc = 'legacy front-end (name_tree.InterestTreeNode.nack_interest): same contract as the current front-end'
+
+    def setup(self, cx):
+        return dict(self=mk_node_v1(cx), nack_reason=cx.run.input_int('nack_reason'), implicit_sha256=NackDigest())
+
+
+def _v1_sat_world(w, w0, i, is_prefix):
+    a = z3.Int('a!v1s')
+    hit = z3.And(a >= 0, a < i, PASSED(a, is_prefix), z3.Not(z3.Select(w0.done, a)))
+    return z3.ForAll([a], z3.And(
+        z3.Implies(hit, z3.And(z3.Select(w.done, a), z3.Select(w.outcome, a) == RESULT)),
+        z3.Implies(z3.Not(hit), z3.And(z3.Select(w.done, a) == z3.Select(w0.done, a), z3.Select(w.outcome, a) == z3.Select(w0.outcome, a)))))
+
+
+def _v1_sat_inv(it, env, g):
+    d = it.run.ghost['pit']
+    i = zint(g['i'])
+    a = z3.Int('a!v1i')
+    kept = as_kept(env['unsatisfied_entries'], d['pl'])
+    return {'unsatisfied_is_the_non_passing_prefix': z3.ForAll([a], z3.Select(kept, a) == z3.And(a >= 0, a < i, z3.Not(PASSED(a, env['is_prefix'])))),
+            'passing_pending_entries_so_far_got_the_data_nothing_else_changed': _v1_sat_world(d['w'], d['w0'], i, env['is_prefix'])}
+
+
+@contract
+class v1_node_satisfy(Contract):
+    fn = nt.InterestTreeNode.satisfy
+    props = ('C03',)
+    doc = ('legacy name_tree.InterestTreeNode.satisfy, pending list of ANY length: every entry the Data can answer (can_be_prefix or '
+           'exact name; digest equal when given) that is still pending is completed with exactly this Data - a finished one is not '
+           'completed again; when some entry does not pass, exactly the non-passing entries stay pending, in order, and False is '
+           'returned; True iff every entry passed; nothing is raised')
+    raises = {}
+    loops = {1: LoopSpec(_v1_sat_inv, havoc={'unsatisfied_entries': _havoc_remaining})}
+
+    def setup(self, cx):
+        run = cx.run
+        node = mk_node_v1(cx)
+        raw = Opaque('raw_packet', 'raw packet')
+        data = (Opaque('token', 'name'), Opaque('token', 'meta'), Opaque('token', 'content'), Opaque('token', 'sig'), raw)
+        return dict(self=node, data=data, is_prefix=run.input_bool('is_prefix'))
+
+    def post(c, cx, result, self, data, is_prefix):
+        d = cx.run.ghost['pit']
+        n = d['n']
+        a = z3.Int('a!v1p')
+        allp = z3.ForAll([a], z3.Implies(_rng(a, n), PASSED(a, is_prefix)))
+        out = {'passing_pending_entries_completed_once_with_this_data_others_untouched': _v1_sat_world(d['w'], d['w0'], zint(n), is_prefix),
+               'completed_with_this_data': all(x is data for x in cx.run.ghost.get('pit.results', [])),
+               'true_iff_every_entry_passed': Iff(cx.it.truth(result), allp)}
+        pl2 = self.d['pending_list']
+        if result is False:
+            ok = isinstance(pl2, SubList) and pl2.base is d['pl']
+            out['non_passing_entries_stay_pending_in_order'] = ok and z3.ForAll([a], z3.Select(pl2.kept, a) == z3.And(_rng(a, n), z3.Not(PASSED(a, is_prefix))))
+        return out
+
+
+@contract
+class v1_node_timeout(Contract):
+    fn = nt.InterestTreeNode.timeout
+    props = ('C03',)
+    doc = ('legacy name_tree.InterestTreeNode.timeout(future): exactly the entries of this future leave the list, the others stay in '
+           'order; no future is touched; True iff nothing remains')
+    raises = {}
+
+    def setup(self, cx):
+        return dict(self=mk_node_v1(cx), future=FutArg())
+
+    def post(c, cx, result, self, future):
+        d = cx.run.ghost['pit']
+        n, w, w0 = d['n'], d['w'], d['w0']
+        a = z3.Int('a!v1t')
+        pl2 = self.d['pending_list']
+        ok = isinstance(pl2, SubList) and pl2.base is d['pl']
+        out = {'pending_list_is_a_sublist': ok}
+        if ok:
+            out['exactly_the_entries_of_other_futures_remain'] = z3.ForAll([a], z3.Select(pl2.kept, a) == z3.And(_rng(a, n), z3.Not(ISFUT(a))))
+            out['no_future_touched'] = And(w.done is w0.done, w.outcome is w0.outcome)
+            out['true_iff_nothing_remains'] = Iff(cx.it.truth(result), z3.ForAll([a], z3.Implies(_rng(a, n), ISFUT(a))))
+        return out
+
+
+def _v1_cancel_inv(it, env, g):
+    d = it.run.ghost['pit']
+    w, w0 = d['w'], d['w0']
+    i = zint(g['i'])
+    a = z3.Int('a!v1c')
+    seen = z3.And(a >= 0, a < i)
+    return {'every_entry_so_far_is_finished_pending_ones_as_cancelled': z3.ForAll([a], z3.And(
+        z3.Implies(seen, z3.And(z3.Select(w.done, a),
+                                z3.Select(w.outcome, a) == z3.If(z3.Select(w0.done, a), z3.Select(w0.outcome, a), z3.IntVal(CANCELLED)))),
+        z3.Implies(z3.Not(seen), z3.And(z3.Select(w.done, a) == z3.Select(w0.done, a), z3.Select(w.outcome, a) == z3.Select(w0.outcome, a)))))}
+
+
+@contract
+class v1_node_cancel(Contract):
+    fn = nt.InterestTreeNode.cancel
+    props = ('C03',)
+    doc = 'legacy name_tree.InterestTreeNode.cancel: every pending future is cancelled, finished ones keep their outcome'
+    raises = {}
+    loops = {1: LoopSpec(_v1_cancel_inv, havoc={'self': _havoc_world_only})}
+
+    def setup(self, cx):
+        return dict(self=mk_node_v1(cx))
+
+    def post(c, cx, result, self):
+        d = cx.run.ghost['pit']
+        n, w, w0 = d['n'], d['w'], d['w0']
+        a = z3.Int('a!v1q')
+        return {'every_pending_future_cancelled_finished_ones_keep_their_outcome': z3.ForAll([a], z3.Implies(_rng(a, n), z3.And(
+            z3.Select(w.done, a), z3.Select(w.outcome, a) == z3.If(z3.Select(w0.done, a), z3.Select(w0.outcome, a), z3.IntVal(CANCELLED)))))}
